@@ -25,6 +25,8 @@ from props import c02 as C2
 HARNESS_BINS = ["vh_lab"]
 NEEDS_FRUGAL = True
 
+import re
+THRIFT_JSON_SPLIT = re.compile(rb"Expected '(-?Infinity|NaN)' but found '")
 TRANSPORTS = ["mem", "tcp", "http", "nats"]
 PROTOS = ["binary", "compact", "json"]
 REGISTRY = {"mem": 0, "http": 0, "tcp": 1, "nats": 1}
@@ -287,7 +289,9 @@ def boundary_program(pid):
     def fld(i, name, t):
         return {"id": i, "name": name, "mod": "default", "type": t, "default": None}
     methods = [{"name": "echo", "oneway": False, "ret": ["string"], "args": [fld(1, "msg", ["string"])], "throws": []},
-               {"name": "fire", "oneway": True, "ret": None, "args": [fld(1, "blob", ["binary"])], "throws": []}]
+               {"name": "fire", "oneway": True, "ret": None, "args": [fld(1, "blob", ["binary"])], "throws": []},
+               {"name": "sum", "oneway": False, "ret": ["i32"],
+                "args": [fld(1, "pad", ["string"]), fld(2, "ds", ["list", ["double"]])], "throws": []}]
     return {"id": pid, "root": fn, "order": [fn],
             "files": {fn: {"name": fn, "includes": [], "typedefs": [], "enums": [], "consts": [], "structs": [],
                            "services": [{"name": "Echo", "extends": None, "methods": methods}], "scopes": [],
@@ -298,7 +302,7 @@ def plan_boundary(rng, P, transport, proto, sizes):
     p = P.p
     fn = p["root"]
     svc = L.find_service(p, fn, "Echo")
-    echo, fire = svc["methods"]
+    echo, fire, summ = svc["methods"]
     calls, reqs = [], []
     for n in sizes:
         which = rng.random()
@@ -315,6 +319,16 @@ def plan_boundary(rng, P, transport, proto, sizes):
         calls.append(c)
         reqs.append({"method": go_name(m), "args": [L.to_wire(p, a["type"], v) for a, v in zip(m["args"], c.args)],
                      "outcome": spec})
+    if sizes and sizes[0] < 0:
+        # special doubles across the 4096-byte buffer of the JSON protocol's reader (known finding of the Thrift library)
+        calls, reqs = [], []
+        for n in range(-sizes[0]):
+            c = Call()
+            c.dfn, c.dsvc, c.own, c.tamper, c.unwritable = fn, "Echo", True, None, False
+            c.m, c.args, c.desc = summ, ["p" * (3950 + n), [float("-inf")] * 30], ("ret", n)
+            calls.append(c)
+            reqs.append({"method": go_name(summ), "args": [L.to_wire(p, a["type"], v) for a, v in zip(summ["args"], c.args)],
+                         "outcome": {"kind": "ret", "value": n}})
     req = {"op": "c03_session", "service": svc_key(fn, "Echo"), "server": svc_key(fn, "Echo"),
            "transport": transport, "proto": proto, "calls": reqs}
     return req, calls
@@ -487,6 +501,9 @@ def _run_program(ctx, prog, lb, plan, stats, judge_cases, judge_meta):
                 for i in range(0, len(sizes), 60):
                     req, calls = plan_boundary(rng, P, t, pr, sizes[i:i + 60])
                     sessions.append((req, calls, fn, "Echo", fn, "Echo", t, pr))
+        for t, pr in (("mem", "json"), ("http", "json"), ("tcp", "compact")):
+            req, calls = plan_boundary(rng, P, t, pr, [-8])
+            sessions.append((req, calls, fn, "Echo", fn, "Echo", t, pr))
     else:
         sessions = plan_program(rng, P, svcs, plan)
     t_run = __import__("time").time()
@@ -571,8 +588,15 @@ def _run_program(ctx, prog, lb, plan, stats, judge_cases, judge_meta):
             stats["kind/" + kind] += 1
             stats["inherited" if not c.own else "own"] += 1
             if problems:
+                sig = None
+                txt = bytes.fromhex((o.get("client") or {}).get("msg", "") or "")
+                if proto == "json" and THRIFT_JSON_SPLIT.search(txt):
+                    # Apache Thrift's TSimpleJSONProtocol reads NaN / Infinity / -Infinity with one bufio Read: a token
+                    # that straddles the reader's 4096-byte buffer comes back short (known finding, outside /repo)
+                    sig = {"class": "thrift_json_special_double_split_at_4096"}
+                    stats["known/thrift_json_special_double_split"] += 1
                 ctx.violation("C03: %s over %s/%s: %s" % (m["name"], transport, proto, "; ".join(problems)), rep,
-                              signature=None)
+                              signature=sig)
                 continue
             stats["oracle_ok"] += 1
             # --- judge case
@@ -717,7 +741,7 @@ def run(ctx, br):
     tag = "c03_%d" % (ctx.seed % 100000)
     if quick:
         progs = [("boundary", {"boundary": 6}), ("small", {"combos": 6, "per_method": 3}),
-                 ("small", {"combos": 6, "per_method": 3}), ("medium", {"combos": 5, "per_method": 3})]
+                 ("small", {"combos": 6, "per_method": 3}), ("medium", {"combos": 4, "per_method": 2})]
     else:
         progs = [("boundary", {"boundary": 1, "huge": True})] + \
                 [(("small", "medium", "large")[i % 3], {"combos": 12, "per_method": 3}) for i in range(9)]
